@@ -32,6 +32,7 @@ pub fn groups() -> Vec<(&'static str, Vec<Op>, bool)> {
         ("serdes_hash", ops(&["fr_serdes 2", "fq12_serdes 2", "h2f 0 0 1 0 0", "h2f 1 1 2 1 0", "g1_compress 2", "g2_compress 1", "g1_rec_scalar 9", "g2_rec_num 0 7", "x_xmd_long"]), true),
         ("tables3", ops(&["g1_mul3 1 5", "g1_mul3 1 4", "g1_pre3 1"]), true),
         ("identity_paths", ops(&["g1_decode 0 0", "g1_decode 1 0", "g1_insub 0", "g2_insub 0", "g1_serdes 0 1 0", "g1_serdes 0 0 1", "g2_serdes 0 1 1", "g2_decode 0 0"]), true),
+        ("e2c_g1", ops(&["g1_e2c 0 1 0"]), true),
         ("g2_prepare", ops(&["g2_prepare 1", "g2_prepare 2", "g2_prepare 1", "g1_prepare 2", "g2_prepare 2", "g2_prepare 1"]), false),
         ("prepare_miller", ops(&["g2_prepare 1", "g2_prepare 2", "g2_prepare 1", "g2_prepare 3", "g2_prepare 2", "miller 1 1 1 0", "g2_prepare 1", "miller 2 1 2 1"]), false),
         ("pairing", ops(&["pairing 1 1", "finalexp 2", "x_multi_short"]), false),
